@@ -323,6 +323,22 @@ Proof.
   intro Hs. destruct (steps_inv m s cs _ _ (init_inv m s) Hs) as (Hd & _). exact Hd.
 Qed.
 
+(* the same two statements for histories that switch solver *)
+Corollary repeatable_any_solver (m : model) s cs1 cs2 p rb1 rb2 :
+  current_defaults (m_defaults m) cs1 = current_defaults (m_defaults m) (cs1 ++ cs2) ->
+  snd (step O (fst (steps O (init_api O m) cs1)) (CRun p s rb1)) =
+  snd (step O (fst (steps O (init_api O m) (cs1 ++ cs2))) (CRun p s rb2)).
+Proof.
+  intro Hd.
+  pose proof (run_history_independent_any_solver m cs1 p s rb1) as H1.
+  pose proof (run_history_independent_any_solver m (cs1 ++ cs2) p s rb2) as H2.
+  cbn zeta in H1, H2. rewrite H1, H2, Hd. reflexivity.
+Qed.
+
+Theorem definition_preserved_any_solver (m : model) cs :
+  same_definition m (a_model (fst (steps O (init_api O m) cs))).
+Proof. destruct (steps_inv2 m cs _ _ (init_inv2 m)) as (Hd & _). exact Hd. Qed.
+
 (* handles are append-only: a runner given out is never modified by later calls *)
 Lemma step_handles a c k r : nth_error (a_handles a) k = Some r ->
   nth_error (a_handles (fst (step O a c))) k = Some r.
